@@ -1,0 +1,6 @@
+//go:build verif
+
+package kit
+
+// VerifHasIndex reports whether the diagnostic carries a position (verification hook, build tag verif).
+func (e JSchemaError) VerifHasIndex() bool { return e.hasIndex }
